@@ -123,7 +123,19 @@ def headers_hash():
     return _headers_hash_cache[REPO]
 
 
+_tree_hash_cache = {}
+
+
 def tree_hash():
+    """Hash of every input of the build; computed once per process (a check sees one
+    state of the tree: the one present when it started)."""
+    if REPO in _tree_hash_cache:
+        return _tree_hash_cache[REPO]
+    _tree_hash_cache[REPO] = _tree_hash()
+    return _tree_hash_cache[REPO]
+
+
+def _tree_hash():
     h = hashlib.sha256()
     h.update(headers_hash().encode())
     for s in LIB_SOURCES:
@@ -228,6 +240,36 @@ def build_probe(variant, src, name=None, extra_flags=(), extra_srcs=(), extra_ld
          + LIBS + list(extra_ld) + ["-o", tmp])
     os.rename(tmp, exe)
     return exe
+
+
+def build_server(variant, name):
+    """Fork server for one tool: tools/<name>.cc compiled with -Dmain=tool_main and
+    linked with harness/forksrv.cc and the variant's library."""
+    v = VARIANTS[variant]
+    out = build(variant)
+    exe = os.path.join(out, name + ".srv")
+    stamp = exe + ".key"
+    srv_src = os.path.join(VERIF, "harness", "forksrv.cc")
+    key = _sha(_read(srv_src), variant)[:16]
+    if os.path.exists(exe) and os.path.exists(stamp) and open(stamp).read() == key:
+        return exe
+    lock = open(os.path.join(out, ".lock.srv." + name), "w")
+    fcntl.flock(lock, fcntl.LOCK_EX)
+    try:
+        if os.path.exists(exe) and os.path.exists(stamp) and open(stamp).read() == key:
+            return exe
+        flags = common_flags() + v["flags"]
+        tobj = compile_obj(v["cxx"], flags + ["-Dmain=tool_main"], os.path.join(REPO, "tools", TOOLS[name]), extra_key="srv")
+        sobj = compile_obj(v["cxx"], ["-O1", "-std=c++11", "-w"] + [f for f in v["flags"] if f.startswith("-fsanitize")], srv_src, extra_key="srv")
+        tmp = exe + ".%d.tmp" % os.getpid()
+        _run([v["cxx"]] + v["ld"] + [sobj, tobj, os.path.join(out, "libabigail.a")] + LIBS + ["-o", tmp])
+        os.rename(tmp, exe)
+        with open(stamp, "w") as f:
+            f.write(key)
+        return exe
+    finally:
+        fcntl.flock(lock, fcntl.LOCK_UN)
+        lock.close()
 
 
 def prune_trees(keep=4):
